@@ -16,16 +16,16 @@ CHECKS = {
          "Seeded exploration of conformant streams x (read buffer, chunking, read program incl. abandon/Join); the oracle is the message list the independent encoder encoded. Sanitizer builds enumerate alignment x length x mask offset of the unsafe unmasking path.",
          "independent encoder internal/wire + internal/zflate; zlib 1.2.13 through python3 as foreign deflater/inflater (admission gate); stdlib inflater", "3/C03"),
  "C04": ("exploration", "runtime monitoring: complete enumeration of the next-frame header alphabet in 6 protocol histories, classified by an independent receiver model, executed on real Conns",
-         "Every (history, role, compression, opcode, FIN, RSV1-3, MASK, length class) cell and 57 close bodies per state are executed; VIOLATION cells must fail-stop with sticky error and a 1002 close, LEGAL cells must be delivered, UNSPECIFIED cells only must not panic. Exhaustive at that abstraction.",
+         "Every (history, role, compression, opcode, FIN, RSV1-3, MASK, length class) cell (122 880) and 57 close bodies per state are executed; VIOLATION cells must fail-stop with sticky error and a 1002 close, LEGAL cells must be delivered, UNSPECIFIED cells only must not panic (exhaustive at that abstraction). A seeded family adds generated conformant prefixes + one violating frame under random buffer sizes, chunkings and read programs including abandoned messages.",
          "receiver model written from RFC 6455/7692 (internal/props/c04.go classify); length classes and histories stand for all lengths/histories", "3/C04"),
  "C05": ("fault_enumeration", "runtime monitoring with fault injection: every cut offset x 6 fault kinds on generated streams, scripted transport, lower<=complete<=upper oracle and sticky-error check",
-         "For each generated stream every byte offset and every way an io.Reader may report the failure is injected; the number of messages reported complete must lie between what had arrived before the failing read and what the cut contains, each byte-identical, then a permanent error.",
+         "For each generated stream every byte offset and every way an io.Reader may report the failure is injected (after transient faults the transport resumes delivering in half of the executions); the number of messages reported complete must lie between what had arrived before the failing read and what the cut contains, each byte-identical, then a permanent error.",
          "streams/chunkings/read programs sampled; cut offsets x fault kinds exhaustive per stream; DEFLATE BFINAL early completion is not judged", "3/C05"),
  "C06": ("exploration", "runtime monitoring: limit model over generated histories and fragmentations, decoded 1009 close, heap-allocation counter probe",
-         "Seeded exploration of (L, read history, target size around L / huge claimed lengths, crossing frame, controls, chunking); within-limit messages must be readable whatever the history, over-limit ones refused before the crossing frame's payload with ErrReadLimit + 1009; allocation must not grow with the claimed length.",
+         "Seeded exploration of (L, read history, target size around L / huge claimed lengths / compressed targets whose wire size is around L, crossing frame, controls, chunking); within-limit messages must be readable whatever the history, over-limit ones refused before the crossing frame's payload with ErrReadLimit + 1009; allocation must not grow with the claimed length.",
          "limit counted in wire payload bytes; runtime.MemStats.TotalAlloc as allocation counter", "3/C06"),
  "C08": ("exploration", "runtime monitoring: handler/data event log with one counter vs. wire order of an independently encoded stream; decoded pong/close echoes; complete enumeration of acceptable close codes",
-         "All 2009 acceptable close codes x reason lengths x roles are enumerated; seeded streams put control frames at every kind of position; handler calls must match the wire exactly once, in order, correctly placed relative to delivered bytes; echoes decoded from the write log; handler errors permanent.",
+         "All 2009 acceptable close codes x reason lengths x roles are enumerated; seeded streams put control frames at every kind of position; a concurrent family checks pong payloads while other goroutines use WriteControl; handler calls must match the wire exactly once, in order, correctly placed relative to delivered bytes; echoes decoded from the write log; handler errors permanent.",
          "single-goroutine executions so best-effort echoes are deterministic", "3/C08"),
  "C17": ("exploration", "runtime monitoring: every split of a frame stream across the handshake boundary through the real Upgrader.Upgrade (fake Hijacker) and Dialer.Dial (scripted conn)",
          "For each generated stream every split between hijacked buffer and socket x 6 hijacked reader sizes x 6 ReadBufferSizes (server) and every cut of '101 + frames' (client) is executed; the messages read must equal the messages encoded.",
